@@ -2,6 +2,9 @@
 
 (1) TrainCtlFs.tla: the update refined into the code's file-system micro-steps with a Crash action at
     every program point; TLC checks Recoverable / ExactlyTwo / AllLoadable / Convergent exhaustively.
+    A checkpoint's content is the epoch whose state it holds AND (optimizer) the learning rate it carries;
+    the rate recorded for an epoch and the best epoch (by validation or, best_is_train, by training metric)
+    are TrainCtl's, instantiated; the model exports them as the oracle of (2).
 (2) fault enumeration on the REAL code: for every metric history and mode, the update is killed
     (FsInterposer, BaseException) before and after every file-system mutating call; a new controller is
     started on the same files and the property's clauses are evaluated on the real files.
@@ -22,11 +25,13 @@ from . import _tc
 
 PROP = "C16"
 MODES = {
-    # name: (keep_lb, model_fmt, optim_fmt, epoch_in_name)
-    "epoch_lb": (True, "model_{epoch:03d}.pt", "optim_{epoch:03d}.pt", True),
-    "epoch_all": (False, "model_{epoch:03d}.pt", "optim_{epoch:03d}.pt", True),
-    "noepoch_lb": (True, "model.pt", "optim.pt", False),
-    "noepoch_all": (False, "model.pt", "optim.pt", False),
+    # name: (keep_lb, model_fmt, optim_fmt, epoch_in_name, best_is_train)
+    "epoch_lb": (True, "model_{epoch:03d}.pt", "optim_{epoch:03d}.pt", True, False),
+    "epoch_all": (False, "model_{epoch:03d}.pt", "optim_{epoch:03d}.pt", True, False),
+    "noepoch_lb": (True, "model.pt", "optim.pt", False, False),
+    "noepoch_all": (False, "model.pt", "optim.pt", False, False),
+    # update_for_epoch(..., best_is_train=True): "best" = lowest TRAINING metric
+    "epoch_lb_trn": (True, "model_{epoch:03d}.pt", "optim_{epoch:03d}.pt", True, True),
 }
 P0 = dict(P=2, B=0, TH=0, RP=1, RB=0, RC=0, RTH=1, ne=0, EK=9)  # lr reductions happen, no early stop
 P1 = dict(P=1, B=1, TH=0, RP=2, RB=1, RC=1, RTH=1, ne=0, EK=1)
@@ -46,24 +51,44 @@ def rows_for(vals):
     return [dict(epoch=e + 1, val=v, trn=((v * 3 + e + 1) % 5) + 1, user=(e + 1) * 7 + v) for e, v in enumerate(vals)]
 
 
-def best_of(vals):
-    b, bv = 0, float("inf")
-    for e, v in enumerate(vals, 1):
-        if v < bv:
-            b, bv = e, v
-    return b
+def okey(p, bit):
+    return (tuple(sorted(p.items())), bool(bit))
+
+
+def oracle_for(oracles, p, bit, vals):
+    """the specification's record for this parameter setting / notion of best / metric history: the rate (number of
+    reductions) recorded for each epoch and the best epoch after each epoch (TrainCtlFs!Export; a history shorter
+    than the model's is a prefix of one of the model's)"""
+    table = oracles.get(okey(p, bit))
+    if table is None:
+        raise MachineryError("no TrainCtlFs run exported an oracle for %r best_is_train=%r" % (p, bit))
+    n = len(vals)
+    for M, rec in table.items():
+        if list(M[:n]) == list(vals):
+            return dict(lrk=rec["lrk"][:n], best=rec["best"][:n], trn=rec["trn"][:n])
+    raise MachineryError("metric history %r not in the TrainCtlFs universe" % (vals,))
+
+
+def lrk_of(lr):
+    """rate -> number of reductions on the grid (99 = not a grid rate)"""
+    if lr is None:
+        return 0
+    import math
+
+    k = math.log(lr) / math.log(_tc.FACTOR) if lr > 0 else -1.0
+    return int(round(k)) if abs(k - round(k)) < 1e-9 and 0 <= round(k) < 99 else 99
 
 
 class Refused(Exception):
     pass
 
 
-def do_update(sim, row, crash_at=None):
+def do_update(sim, row, crash_at=None, bit=False):
     from ..doubles.fsinterposer import FsInterposer
 
     with FsInterposer(namer, crash_at) as ip:
         try:
-            sim.update(row)
+            sim.update(row, best_is_train=bit)
         except ValueError as ex:
             if "would overwrite" in str(ex):
                 raise Refused(str(ex))
@@ -71,9 +96,15 @@ def do_update(sim, row, crash_at=None):
     return ip
 
 
-def check_recovery(sim, vals, mode, free_csv_rows, ctx_out, sig_base, case):
+def check_recovery(sim, vals, mode, free_csv_rows, ctx_out, sig_base, case, orc):
     """evaluate the property's clauses on the real files after a crash; continue to the end"""
-    keep_lb, _, _, epoch_fmt = MODES[mode]
+    keep_lb, _, _, epoch_fmt, bit = MODES[mode]
+
+    def rate(e):
+        return _tc.FACTOR ** orc["lrk"][e - 1]
+
+    def close(a, b):
+        return abs(a - b) <= 1e-12 * max(1.0, abs(b))
 
     def bad(kind, detail):
         s = dict(sig_base)
@@ -103,9 +134,13 @@ def check_recovery(sim, vals, mode, free_csv_rows, ctx_out, sig_base, case):
         tag = sim.opt.param_groups[0].get("vf_epoch", None)
         if tag != L:
             bad("last_optim_params", "optimizer loaded for the last recorded epoch %d holds the state of epoch %r" % (L, tag))
-    B = best_of(vals[:L])
-    if ctl.get_best_epoch() != B:
-        bad("best_epoch", "get_best_epoch()=%r expected %d" % (ctl.get_best_epoch(), B))
+        lrs = sim.opt_lrs()
+        if not all(close(x, rate(L)) for x in lrs):
+            bad("last_optim_lr", "optimizer loaded for the last recorded epoch %d carries lr %r, the rate recorded for that epoch is %r" % (
+                L, lrs, rate(L)))
+    B = orc["best"][L - 1] if L > 0 else 0
+    if ctl.get_best_epoch(bit) != B:
+        bad("best_epoch", "get_best_epoch(%r)=%r expected %d" % (bit, ctl.get_best_epoch(bit), B))
     if B > 0 and (epoch_fmt or keep_lb):
         # (without the epoch in the file name and keeping everything the library documents that only the
         # last state persists, so the best epoch is not judged there)
@@ -115,10 +150,25 @@ def check_recovery(sim, vals, mode, free_csv_rows, ctx_out, sig_base, case):
         try:
             with warnings.catch_warnings():
                 warnings.simplefilter("ignore")
-                ctl.load_model_for_epoch(m2)
+                if bit:
+                    ctl.load_model_for_epoch(m2, B)  # (without an epoch the library loads the validation-best)
+                else:
+                    ctl.load_model_for_epoch(m2)
             w = int(round(float(m2.weight.detach().flatten()[0])))
             if w != B:
                 bad("best_params", "model loaded for the best epoch %d holds the parameters of epoch %d" % (B, w))
+            # ... and the optimizer state of the best epoch, with the rate recorded for it
+            m3 = torch.nn.Linear(1, 1)
+            o3 = torch.optim.SGD(m3.parameters(), lr=123.0, momentum=0.5)
+            with warnings.catch_warnings():
+                warnings.simplefilter("ignore")
+                ctl.load_model_and_optimizer_for_epoch(m3, o3, B)
+            tag = o3.param_groups[0].get("vf_epoch", None)
+            if tag != B:
+                bad("best_optim_params", "optimizer loaded for the best epoch %d holds the state of epoch %r" % (B, tag))
+            elif not close(o3.param_groups[0]["lr"], rate(B)):
+                bad("best_optim_lr", "optimizer loaded for the best epoch %d carries lr %r, the rate recorded for that epoch is %r" % (
+                    B, o3.param_groups[0]["lr"], rate(B)))
         except Exception as ex:
             bad("recovery_load_best", "loading the best epoch %d raised %r" % (B, ex))
     if not keep_lb and epoch_fmt:
@@ -130,17 +180,21 @@ def check_recovery(sim, vals, mode, free_csv_rows, ctx_out, sig_base, case):
                 ctl.load_model_for_epoch(m2, e)
                 if int(round(float(m2.weight.detach().flatten()[0]))) != e:
                     bad("kept_epoch_params", "epoch %d not holding its parameters" % e)
+                o2 = torch.optim.SGD(m2.parameters(), lr=123.0, momentum=0.5)
+                ctl.load_model_and_optimizer_for_epoch(m2, o2, e)
+                if not close(o2.param_groups[0]["lr"], rate(e)):
+                    bad("kept_epoch_optim_lr", "optimizer of kept epoch %d carries lr %r, recorded %r" % (e, o2.param_groups[0]["lr"], rate(e)))
             except Exception as ex:
                 bad("kept_epoch_unloadable", "recorded epoch %d cannot be loaded: %r" % (e, ex))
     return True
 
 
-def continue_to_end(sim, vals, free_csv_text, ctx_out, sig_base, case, n_expected):
+def continue_to_end(sim, vals, free_csv_text, ctx_out, sig_base, case, n_expected, bit=False):
     rows = rows_for(vals)
     L = len(sim.read_csv())
     try:
         for row in rows[L:n_expected]:
-            do_update(sim, row)
+            do_update(sim, row, bit=bit)
     except Refused:
         pass
     except Exception as ex:
@@ -157,9 +211,9 @@ def continue_to_end(sim, vals, free_csv_text, ctx_out, sig_base, case, n_expecte
 
 
 def scenario(job):
-    """job = (mode, vals, p, base_dir, double) -> dict(results)"""
-    mode, vals, p, base, double = job
-    keep_lb, mfmt, ofmt, epoch_fmt = MODES[mode]
+    """job = (mode, vals, p, base_dir, double, oracle) -> dict(results); oracle = oracle_for(...) (from the spec)"""
+    mode, vals, p, base, double, orc = job
+    keep_lb, mfmt, ofmt, epoch_fmt, bit = MODES[mode]
     rows = rows_for(vals)
     out = []
     stats = dict(crash_points=0, crash_points_changed_files=0, double_crash_points=0, points=[])
@@ -177,12 +231,12 @@ def scenario(job):
             e = row["epoch"]
             trace.append(dict(op="begin", e=e, v=row["val"]))
             try:
-                ip = do_update(sim, row)
+                ip = do_update(sim, row, bit=bit)
             except Refused:
                 break  # documented: refuses to overwrite the best checkpoint
             except Exception as ex:
                 out.append((dict(site="update_for_epoch", kind="exception", mode=mode), "crash-free update raised %r" % ex,
-                            dict(mode=mode, vals=vals, p=p)))
+                            dict(mode=mode, vals=vals, p=p, oracle=orc)))
                 return dict(out=out, stats=stats, trace=None)
             ncalls.append(ip.k)
             n_done += 1
@@ -191,11 +245,11 @@ def scenario(job):
                     tmpids[ev["path"][1]] = len(tmpids) + 1
                     trace.append(dict(op="mktemp", t=tmpids[ev["path"][1]]))
                 elif ev["op"] == "write":
-                    trace.append(dict(op="write", t=tmpids.get(ev["path"][1], 0), c=ev["content"]))
+                    trace.append(dict(op="write", t=tmpids.get(ev["path"][1], 0), c=ev["content"], k=lrk_of(ev.get("lr"))))
                 elif ev["op"] == "replace":
                     trace.append(dict(op="replace", t=tmpids.get(ev["src"][1], 0), kind=ev["dst"][0], e=ev["dst"][1]))
                 elif ev["op"] == "append":
-                    trace.append(dict(op="append", e=e, v=row["val"]))
+                    trace.append(dict(op="append", e=e, v=row["val"], tv=row["trn"]))
                 elif ev["op"] == "remove":
                     trace.append(dict(op="remove", kind=ev["path"][0], e=ev["path"][1]))
                 else:
@@ -203,13 +257,13 @@ def scenario(job):
             files = [namer(f) for f in sim.state_files()]
             trace.append(dict(op="end", e=e, files=files))
             if keep_lb:
-                B = best_of(vals[:e])
+                B = orc["best"][e - 1]
                 want = sorted({("m", e if epoch_fmt else 0), ("o", e if epoch_fmt else 0),
                                ("m", B if epoch_fmt else 0), ("o", B if epoch_fmt else 0)})
                 if sorted(map(tuple, files)) != want:
                     out.append((dict(site="update_for_epoch", kind="exactly_two", mode=mode),
                                 "after the update of epoch %d the state directory holds %r, expected %r" % (e, files, want),
-                                dict(mode=mode, vals=vals, p=p, epoch=e)))
+                                dict(mode=mode, vals=vals, p=p, epoch=e, oracle=orc)))
         free_rows = [_tc.parse_csv_line(x) for x in sim.read_csv()]
         with open(sim.csv) as f:
             free_text = f.read() if os.path.exists(sim.csv) else ""
@@ -221,14 +275,14 @@ def scenario(job):
                     os.makedirs(d)
                     sim = _tc.Sim(d, p, keep_lb, mfmt, ofmt)
                     for row in rows[:ei]:
-                        do_update(sim, row)
+                        do_update(sim, row, bit=bit)
                     from ..doubles.fsinterposer import Crash
 
                     before_files = sim.state_files()
                     before_rows = len(sim.read_csv())
                     events = []
                     try:
-                        ip = do_update(sim, rows[ei], (k, side))
+                        ip = do_update(sim, rows[ei], (k, side), bit=bit)
                         events = ip.events
                         crashed = False
                     except Crash:
@@ -242,18 +296,20 @@ def scenario(job):
                     stats["points"].append((ei, k, side, changed))
                     # the interposer of the crashed call is gone; recompute the window from the files' difference
                     win = classify_window(sim, before_rows, rows[ei]["epoch"], epoch_fmt)
-                    case = dict(mode=mode, vals=vals, p=p, crash_epoch=ei + 1, crash_call=k, side=side, crashes=1)
+                    case = dict(mode=mode, vals=vals, p=p, crash_epoch=ei + 1, crash_call=k, side=side, crashes=1, oracle=orc)
                     sig = dict(site="update_for_epoch", fmt="epoch" if epoch_fmt else "noepoch", keep="lb" if keep_lb else "all",
                                window=win, crashes=1)
+                    if bit:
+                        sig["best"] = "train"
                     nb = len(out)
-                    ok = check_recovery(sim, vals, mode, free_rows, out, sig, case)
+                    ok = check_recovery(sim, vals, mode, free_rows, out, sig, case, orc)
                     if ok and len(out) == nb:
                         if double:
-                            double_crash(sim, d, vals, rows, mode, p, free_rows, free_text, out, stats, case, n_done)
+                            double_crash(sim, d, vals, rows, mode, p, free_rows, free_text, out, stats, case, n_done, orc)
                         else:
-                            continue_to_end(sim, vals, free_text, out, sig, case, n_done)
+                            continue_to_end(sim, vals, free_text, out, sig, case, n_done, bit)
                     shutil.rmtree(d, ignore_errors=True)
-        return dict(out=out, stats=stats, trace=dict(keep_lb=keep_lb, events=trace) if epoch_fmt else None,
+        return dict(out=out, stats=stats, trace=dict(keep_lb=keep_lb, best_is_train=bit, events=trace) if epoch_fmt else None,
                     n_done=n_done, ncalls=ncalls)
     finally:
         shutil.rmtree(work, ignore_errors=True)
@@ -287,11 +343,11 @@ def classify_window(sim, rows_before, epoch, epoch_fmt):
     return "before_any_commit"
 
 
-def double_crash(sim, d, vals, rows, mode, p, free_rows, free_text, out, stats, case1, n_done):
+def double_crash(sim, d, vals, rows, mode, p, free_rows, free_text, out, stats, case1, n_done, orc):
     """after one crash + restart, kill the next update again at every call"""
     from ..doubles.fsinterposer import Crash
 
-    keep_lb, mfmt, ofmt, epoch_fmt = MODES[mode]
+    keep_lb, mfmt, ofmt, epoch_fmt, bit = MODES[mode]
     L = len(sim.read_csv())
     if L >= n_done:
         return
@@ -309,7 +365,7 @@ def double_crash(sim, d, vals, rows, mode, p, free_rows, free_text, out, stats, 
                 sim2 = _tc.Sim(d2, p, keep_lb, mfmt, ofmt)
                 rows_before = len(sim2.read_csv())
                 try:
-                    do_update(sim2, rows[rows_before], (k, side))
+                    do_update(sim2, rows[rows_before], (k, side), bit=bit)
                     crashed = False
                 except Crash:
                     crashed = True
@@ -323,10 +379,12 @@ def double_crash(sim, d, vals, rows, mode, p, free_rows, free_text, out, stats, 
                     win = classify_window(sim2, rows_before, rows[rows_before]["epoch"], epoch_fmt)
                     sig = dict(site="update_for_epoch", fmt="epoch" if epoch_fmt else "noepoch", keep="lb" if keep_lb else "all",
                                window=win, crashes=2)
+                    if bit:
+                        sig["best"] = "train"
                     nb = len(out)
-                    ok = check_recovery(sim2, vals, mode, free_rows, out, sig, case)
+                    ok = check_recovery(sim2, vals, mode, free_rows, out, sig, case, orc)
                     if ok and len(out) == nb:
-                        continue_to_end(sim2, vals, free_text, out, sig, case, n_done)
+                        continue_to_end(sim2, vals, free_text, out, sig, case, n_done, bit)
                 shutil.rmtree(d2, ignore_errors=True)
             if not progressed:
                 break
@@ -335,22 +393,53 @@ def double_crash(sim, d, vals, rows, mode, p, free_rows, free_text, out, stats, 
 
 
 def run_design(ctx):
+    """-> oracles: (params, best_is_train) -> {metric history M -> record exported by the model}"""
+    import threading
+
     mod = os.path.join(SPECS, "TrainCtlFs.tla")
     acts = ["Begin", "AppendFirst", "MkTmp", "WrTmp", "Repl", "AppendLast", "Clean", "Crash"]
-    must_hold = ["epoch_lb", "epoch_all_1crash"]
+    must_hold = ["epoch_lb", "epoch_lb_trn" if ctx.quick else "epoch_lb_trn2", "epoch_all_1crash"]
+    repro_names = ["epoch_all", "noepoch_lb", "noepoch_all"]
+    got, errs = {}, []
+
+    def job(name, workers, coverage):
+        try:
+            got[name] = tlc.run(mod, os.path.join(SPECS, "TrainCtlFs_%s.cfg" % name), workers=workers, timeout=3000, coverage=coverage)
+        except Exception as ex:
+            errs.append(ex)
+
+    ths = [threading.Thread(target=job, args=("epoch_lb", 9, True)), threading.Thread(target=job, args=(must_hold[1], 3 if ctx.quick else 6, True)),
+           threading.Thread(target=job, args=("epoch_all_1crash", 2, True))]
+    ths += [threading.Thread(target=job, args=(name, 1, False)) for name in repro_names]
+    for th in ths:
+        th.start()
+    for th in ths:
+        th.join()
+    if errs:
+        raise errs[0]
+    oracles = {}
     for name in must_hold:
-        res = tlc.run(mod, os.path.join(SPECS, "TrainCtlFs_%s.cfg" % name), workers=16, timeout=3000)
+        res = got[name]
         tlc.require_ok(res, "TrainCtlFs/" + name)
-        tlc.require_covered(res, [a for a in acts if not (name.startswith("epoch") and a == "AppendFirst" and name == "epoch_lb")],
+        tlc.require_covered(res, [a for a in acts if not (a == "AppendFirst" and name.startswith("epoch_lb"))],
                             "TrainCtlFs/" + name)
         ctx.add_tlc("TrainCtlFs/" + name, res)
+        for rec in res.records:
+            oracles.setdefault(okey(rec["p"], rec["best_is_train"]), {})[tuple(rec["M"])] = rec
+    # vacuity: in the model's universe rates do get reduced and the two notions of "best" do differ
+    a, b = oracles.get(okey(P0, False), {}), oracles.get(okey(P0, True), {})
+    if not a or not b or okey(P1, False) not in oracles:
+        raise MachineryError("TrainCtlFs did not export the oracle of every (parameters, best_is_train) combination")
+    if not any(r["lrk"][-1] > 0 for r in a.values()) or not any(a[M]["best"] != b[M]["best"] for M in a):
+        raise MachineryError("TrainCtlFs universe is vacuous: no rate reduction or training-best = validation-best everywhere")
     # configurations in which the MODEL itself reproduces the recorded findings (not a verdict on the code)
     repro = {}
-    for name in ["epoch_all", "noepoch_lb", "noepoch_all"]:
-        res = tlc.run(mod, os.path.join(SPECS, "TrainCtlFs_%s.cfg" % name), workers=8, timeout=3000, coverage=False)
+    for name in repro_names:
+        res = got[name]
         repro[name] = "violates LastLoadable (as recorded in known_findings.json)" if not res.ok else "holds"
         ctx.add_tlc("TrainCtlFs/" + name, res, count_states=False)
     ctx.extra["model_reproduces_known_findings"] = repro
+    return oracles
 
 
 def validate_traces(ctx, traces):
@@ -386,10 +475,11 @@ def validate_traces(ctx, traces):
 
 
 def run(ctx):
-    ctx.rule = ("for every metric history (3 levels, length 3 quick / 4 thorough) x 4 modes (epoch in name or not x keep "
-                "last+best or everything) x parameter settings: crash before and after EVERY file-system mutating call of "
+    ctx.rule = ("for every metric history (3 levels, length 3 quick / 4 thorough) x 5 modes (epoch in name or not x keep "
+                "last+best or everything; keep last+best with best_is_train) x parameter settings (learning-rate reductions fire): crash before and after EVERY file-system mutating call of "
                 "EVERY update of the real controller (thorough: a second crash at every call of the re-run update), then "
-                "restart on the same files and evaluate prefix / last+best loadable with the saved parameters / continue "
+                "restart on the same files and evaluate prefix / last+best loadable with the saved parameters and the recorded "
+                "learning rate in the optimizer state (oracle: TrainCtlFs!Export) / continue "
                 "to the same history; non-trivial = crash point at which files or history had already changed; distinct by "
                 "(mode, parameters, history, epoch, call index, side[, second crash])")
     ctx.assumptions += ["a crash is modelled as a BaseException raised immediately before/after a mutating call; each call "
@@ -397,25 +487,29 @@ def run(ctx):
                         "is atomic", "left-over temporary files after a crash are tolerated",
                         "file-name format without the epoch field + keep-everything: only the last epoch is judged (the "
                         "library warns that only the last state persists)"]
-    run_design(ctx)
+    oracles = run_design(ctx)
     n = 3 if ctx.quick else 4
     hists = list(itertools.product((1, 2, 3), repeat=n))
     base = ctx.subdir("runs")
     jobs = []
+
+    def add(mode, vals, p, double):
+        jobs.append((mode, list(vals), p, base, double, oracle_for(oracles, p, MODES[mode][4], list(vals))))
+
     for mode in MODES:
         for vals in hists:
-            jobs.append((mode, list(vals), P0, base, not ctx.quick and len(set(vals)) > 1 and ctx.rng.random() < 0.35))
+            add(mode, vals, P0, not ctx.quick and len(set(vals)) > 1 and ctx.rng.random() < 0.35)
     for mode in ("epoch_lb", "epoch_all"):
         for vals in ctx.rng.sample(hists, min(len(hists), 9 if ctx.quick else 40)):
-            jobs.append((mode, list(vals), P1, base, False))
+            add(mode, vals, P1, False)
     if ctx.quick:  # a few double-crash scenarios even in the quick tier
         for mode in MODES:
             for vals in ctx.rng.sample(hists, 2):
-                jobs.append((mode, list(vals), P0, base, True))
+                add(mode, vals, P0, True)
     results = par.pmap(scenario, jobs, chunksize=1)
     traces = []
     tot = dict(crash_points=0, crash_points_changed_files=0, double_crash_points=0)
-    for (mode, vals, p, _, double), r in zip(jobs, results):
+    for (mode, vals, p, _, double, _orc), r in zip(jobs, results):
         for k in tot:
             tot[k] += r["stats"][k]
         ctx.case(n=r["stats"]["crash_points"] + r["stats"]["double_crash_points"])
@@ -442,7 +536,10 @@ def replay(ctx, case):
         validate_traces(ctx, [case["trace"]])
         return
     base = ctx.subdir("replay")
-    r = scenario((case["mode"], case["vals"], case["p"], base, case.get("crashes", 1) > 1))
+    orc = case.get("oracle")
+    if orc is None:
+        raise MachineryError("stored case carries no oracle (written by an older version of the check); re-run the check")
+    r = scenario((case["mode"], case["vals"], case["p"], base, case.get("crashes", 1) > 1, orc))
     hit = False
     for sig, detail, c in r["out"]:
         if all(c.get(k) == case.get(k) for k in ("crash_epoch", "crash_call", "side", "second_crash_call", "second_side")):
